@@ -180,9 +180,12 @@ def run(ctx):
     rng = random.Random(ctx.seed)
     all_combos = [(k, f, l, a) for k in ("csv", "text") for f in (False, True) for l in (False, True) for a in (False, True)]
     cases = res.emitted
+    # long station ids on the location-like axes: always part of the quick tier, in every output variant
+    long_ids = [o for o in cases if max(o["inputs"][0]["locs"]) > 10000 and o["axis"] in ("location", "lat", "elev") and o["metric"] in ("mae", "obs")]
     if ctx.tier == "quick":
         cases = rng.sample(cases, min(len(cases), 320))
-    jobs = [(o, (rng.sample(all_combos, 3) if ctx.tier == "quick" else all_combos)) for o in cases]
+        cases += [o for o in long_ids if o not in cases]
+    jobs = [(o, (rng.sample(all_combos, 3) if (ctx.tier == "quick" and o not in long_ids) else all_combos)) for o in cases]
     for n, divs in par.pmap(_check, jobs, chunk=2):
         ctx.evaluations += n
         for site, detail, rep in divs:
